@@ -374,6 +374,12 @@ def module_family(pid, tier, chk, n=None):
     what = "%d seeded random nested inputs with styled keys x frameworks x layouts x options" % n
     m = 300 if quick else 5000
     if pid == "C10":
+        lit = DM.mc_lit_cases(chk)
+        chk.exhaustive_parts.append("MC_Lit: every abstract literal case (%d): the algorithm layer obeys the literal rule" % len(lit))
+        chk.rng.shuffle(lit)
+        lit = lit[: (300 if quick else 5000)]
+        cases += lit
+        what += " + %d TLC-enumerated literal cases of MC_Lit" % len(lit)
         cases += DM.literal_cases(chk, m)
         what += " + %d literal-set cases (counts 0..17, lengths around 20, quote/backslash/newline/comma/non-BMP content, max 0..16)" % m
     elif pid == "C11":
